@@ -356,10 +356,70 @@ fn gen_names(rng: &mut Rng) -> Vec<String> {
     names
 }
 
+/// the variable names a generated formula mentions (bound ones included)
+pub fn names_of(f: &GF) -> Vec<String> {
+    fn go(f: &GF, acc: &mut Vec<String>) {
+        match f {
+            GF::Var(x) => { if !acc.contains(x) { acc.push(x.clone()); } }
+            GF::Not(g) => go(g, acc),
+            GF::Quant(_, vs, g) => { for v in vs { if !acc.contains(v) { acc.push(v.clone()); } } go(g, acc) }
+            GF::Fix(x, _, g) => { if !acc.contains(x) { acc.push(x.clone()); } go(g, acc) }
+            GF::Bin(_, a, b) => { go(a, acc); go(b, acc); }
+            GF::Ite(a, b, c) => { go(a, acc); go(b, acc); go(c, acc); }
+            GF::CntC(_, fs, _) => { for g in fs { go(g, acc); } }
+            GF::CntV(_, l, r) => { for g in l.iter().chain(r.iter()) { go(g, acc); } }
+            _ => {}
+        }
+    }
+    let mut acc = Vec::new();
+    go(f, &mut acc);
+    acc
+}
+
+/// two different names of the text that the tokenizer gave the same variable id (under `ordering`), if any
+pub fn token_id_clash(text: &str, ordering: &Option<Vec<NamedSymbol>>) -> Option<(String, String, usize)> {
+    let toks = guarded(AssertUnwindSafe(|| { let mut rd: &[u8] = text.as_bytes(); rsbdd::parser::SymbolicBDD::tokenize(&mut rd, ordering.clone()) })).ok()?.ok()?;
+    let mut seen: Vec<(String, usize)> = Vec::new();
+    for t in toks {
+        if let rsbdd::parser::SymbolicBDDToken::Var(v) = t {
+            if let Some((n, _)) = seen.iter().find(|(n, i)| *i == v.id && n != v.name.as_ref()) { return Some((n.clone(), v.name.as_ref().clone(), v.id)); }
+            if !seen.iter().any(|(n, _)| n == v.name.as_ref()) { seen.push((v.name.as_ref().clone(), v.id)); }
+        }
+    }
+    None
+}
+
+/// an ordering as the API accepts it: some of the names (and two unused ones), distinct ids with gaps, the vector
+/// not sorted by id
+pub fn api_ordering(rng: &mut Rng, names: &[String]) -> Vec<NamedSymbol> {
+    let mut pool: Vec<String> = names.to_vec();
+    pool.push("unused1".to_string());
+    pool.push("unused2".to_string());
+    let mut ord = Vec::new();
+    let mut next_id = 0usize;
+    let cnt = 1 + rng.below(pool.len() as u64) as usize;
+    for _ in 0..cnt {
+        let idx = rng.below(pool.len() as u64) as usize;
+        let nm = pool.remove(idx);
+        next_id += rng.below(3) as usize;
+        ord.push(NamedSymbol { name: Rc::new(nm), id: next_id });
+        next_id += 1;
+    }
+    for k in (1..ord.len()).rev() { let j = rng.below(k as u64 + 1) as usize; ord.swap(k, j); }
+    ord
+}
+
 /// one `…|eval|gen|real|result` line
-pub fn eval_line(tag: &str, gf: &GF, text: &str, st: &mut Stats) -> String {
+pub fn eval_line(tag: &str, gf: &GF, text: &str, st: &mut Stats) -> String { eval_line_ord(tag, gf, text, None, st) }
+
+/// … under an ordering given through the API
+pub fn eval_line_ord(tag: &str, gf: &GF, text: &str, ordering: Option<Vec<NamedSymbol>>, st: &mut Stats) -> String {
+    if let Some((a, b, id)) = token_id_clash(text, &ordering) {
+        st.hit("id-clash");
+        return format!("{}|idclash|{}|{}|{}", tag, hex(a.as_bytes()), hex(b.as_bytes()), id);
+    }
     crate::watchdog::enter(text);
-    let line = match parse_text(text.as_bytes(), None) {
+    let line = match parse_text(text.as_bytes(), ordering) {
         Parsed::Err(_) => { st.hit("parse.err"); format!("{}|eval|{}|ERR|-", tag, ser_gf(gf, &HashMap::new())) }
         Parsed::Panic(_) => { st.hit("parse.panic"); format!("{}|eval|{}|PANIC|-", tag, ser_gf(gf, &HashMap::new())) }
         Parsed::Ok(pf) => {
@@ -649,7 +709,9 @@ pub fn c01(out: &mut dyn Write, tier: &str, rng: &mut Rng, st: &mut Stats) {
         };
         count_kinds(&gf, st);
         let text = Printer { rng, noise: i % 2 == 0 }.print(&gf);
-        let line = eval_line("C01", &gf, &text, st);
+        // every sixth formula is evaluated under an ordering handed over through the API
+        let ord = if i % 6 == 5 { st.hit("ordering.api"); Some(api_ordering(rng, &names_of(&gf))) } else { None };
+        let line = eval_line_ord("C01", &gf, &text, ord, st);
         writeln!(out, "{}", line).unwrap();
     }
 }
@@ -764,6 +826,39 @@ pub fn c06(out: &mut dyn Write, tier: &str, rng: &mut Rng, st: &mut Stats) {
         writeln!(out, "C06|lib|fpchain|{}|{}", show_list(&chain), show(&r)).unwrap();
         st.hit("lib.fpchain");
     }
+    // consecutive iterates that are different diagrams with the same 64-bit hash (util::colliding): convergence is
+    // equality of diagrams, not of hashes
+    if hash_model_ok() {
+        let m3 = if tier == "thorough" { 3000 } else { 200 };
+        for i in 0..m3 {
+            if i % 2 == 0 {
+                // x0  ->  x0 | xz  with hash(x0 | xz) = hash(x0)
+                let a = from_tt(2, &[0]);
+                if let Some((z, _)) = colliding(&a, 0, 0) {
+                    let g = from_tt(2, &[z]);
+                    let (a, g) = (crate::env::intern(&env, &a), crate::env::intern(&env, &g));
+                    let r = env.fp(Rc::clone(&a), |x| env.or(x, Rc::clone(&g)));
+                    writeln!(out, "C06|lib|fpor|{}|{}|{}", show(&a), show(&g), show(&r)).unwrap();
+                    st.hit("lib.fp.collision");
+                }
+            } else {
+                let a = from_tt(1 + rng.below(254), &[1, 4, 9]);
+                if a.is_const() { continue; }
+                if let Some((_, b)) = colliding(&a, rng.below(3), 2 + rng.below(6) as usize) {
+                    let c = from_tt(1 + rng.below(254), &[2, 3, 5]);
+                    let chain: Vec<B> = if rng.chance(1, 2) { vec![a, b, c] } else { vec![c, a, b] };
+                    let chain: Vec<B> = chain.iter().map(|d| crate::env::intern(&env, d)).collect();
+                    if chain[0] == chain[1] || chain[1] == chain[2] || chain[0] == chain[2] { continue; }
+                    let ch = chain.clone();
+                    let r = env.fp(Rc::clone(&chain[0]), move |x| {
+                        match ch.iter().position(|c| **c == *x) { Some(i) => Rc::clone(&ch[(i + 1).min(ch.len() - 1)]), None => x }
+                    });
+                    writeln!(out, "C06|lib|fpchain|{}|{}", show_list(&chain), show(&r)).unwrap();
+                    st.hit("lib.fpchain.collision");
+                }
+            }
+        }
+    }
 }
 
 pub fn c09(out: &mut dyn Write, tier: &str, rng: &mut Rng, st: &mut Stats) {
@@ -796,9 +891,15 @@ pub fn c09(out: &mut dyn Write, tier: &str, rng: &mut Rng, st: &mut Stats) {
                 ord.push(NamedSymbol { name: Rc::new(nm), id: next_id });
                 next_id += 1;
             }
+            // the vector need not be sorted by id
+            if rng.chance(1, 2) { for k in (1..ord.len()).rev() { let j = rng.below(k as u64 + 1) as usize; ord.swap(k, j); } }
             st.hit("ordering.some");
             Some(ord)
         } else { st.hit("ordering.none"); None };
+        if let Some((a, b, id)) = token_id_clash(&text, &ordering) {
+            writeln!(out, "C09|idclash|{}|{}|{}", hex(a.as_bytes()), hex(b.as_bytes()), id).unwrap();
+            continue;
+        }
         crate::watchdog::enter(&text);
         match parse_text(text.as_bytes(), ordering) {
             Parsed::Ok(pf) => {
